@@ -98,8 +98,16 @@ func TestC02WebSocket(t *testing.T) {
 		if err == nil {
 			fail("session establishment succeeded in clear text")
 		}
+		// (what follows the <starttls/> request may be a TLS ClientHello: binary,
+		// not clear text)
+		clear := out
+		if i := bytes.Index(out, []byte("<starttls")); i >= 0 {
+			if j := bytes.Index(out[i:], []byte("\x16\x03")); j >= 0 {
+				clear = out[:i+j]
+			}
+		}
 		for _, leak := range []string{"<auth", "<iq", "<sec ", "<response", "secret"} {
-			if bytes.Contains(out, []byte(leak)) {
+			if bytes.Contains(clear, []byte(leak)) {
 				fail("the client sent %q in clear text", leak)
 			}
 		}
